@@ -1,9 +1,9 @@
 #!/bin/sh
-# tools/confirm_seeded.sh <id> <dir with patch.diff demo.py>  -- confirm a seeded change in a fresh scratch worktree
+# tools/confirm_seeded.sh <id> <dir with patch.diff demo.py>  -- confirm a seeded change in a fresh scratch worktree (BASE=<commit> to confirm against an earlier tree)
 id=$1; src=$2
 wt=/tmp/confirm_$id
 git -C /repo worktree remove --force $wt >/dev/null 2>&1; rm -rf $wt
-git -C /repo worktree add --detach $wt HEAD >/dev/null 2>&1 || { echo "worktree failed"; exit 2; }
+git -C /repo worktree add --detach $wt ${BASE:-HEAD} >/dev/null 2>&1 || { echo "worktree failed"; exit 2; }
 so=$(ls /repo/src/pygom/model/_tau_leap*.so 2>/dev/null | head -1)
 if [ -n "$so" ]; then cp "$so" $wt/src/pygom/model/; else (cd $wt && /venv/bin/python setup.py build_ext --inplace >/dev/null 2>&1; git -C $wt checkout -- src/pygom/model/_tau_leap.c 2>/dev/null); fi
 cp $src/demo.py $wt/demo_seeded.py
